@@ -557,8 +557,256 @@ func (u *emUnit) methodByName(recvType, name string) *types.Func {
 	return nil
 }
 
+// ---- the four tracker functions are recognised by WHAT THEY COMPUTE, not by how they are spelled: their bodies are
+// evaluated concretely over the whole domain (8-bit tracker, 8-bit operand) by the small interpreter below, and the
+// result table is compared with the intended function (t & MASK == 0;  t &^ c;  t | c).  Only when the interpreter
+// meets a construct it does not know do the syntactic patterns further down get their say.
+
+type u8env struct {
+	recv  types.Object // the receiver variable (value or pointer to the 8-bit tracker)
+	recvV uint64
+	par   types.Object // the single parameter, if any
+	parV  uint64
+}
+
+// evalU8 evaluates a pure integer / boolean expression; ok=false when a construct is not understood.
+func (u *emUnit) evalU8(e ast.Expr, env *u8env) (val uint64, isBool bool, ok bool) {
+	e = ast.Unparen(e)
+	if tv, has := u.p.info.Types[e]; has && tv.Value != nil && tv.Value.Kind() == constant.Int {
+		if v, exact := constant.Uint64Val(tv.Value); exact {
+			return u.truncTo(v, tv.Type), false, true
+		}
+		return 0, false, false
+	}
+	switch x := e.(type) {
+	case *ast.Ident:
+		o := u.p.info.Uses[x]
+		if o != nil && o == env.recv {
+			if _, isPtr := o.Type().(*types.Pointer); isPtr {
+				return 0, false, false
+			}
+			return env.recvV, false, true
+		}
+		if o != nil && o == env.par {
+			return env.parV, false, true
+		}
+		return 0, false, false
+	case *ast.StarExpr:
+		if id, isId := ast.Unparen(x.X).(*ast.Ident); isId && u.p.info.Uses[id] == env.recv {
+			if _, isPtr := env.recv.Type().(*types.Pointer); isPtr {
+				return env.recvV, false, true
+			}
+		}
+		return 0, false, false
+	case *ast.CallExpr:
+		if tv, has := u.p.info.Types[x.Fun]; has && tv.IsType() && len(x.Args) == 1 {
+			v, b, ok := u.evalU8(x.Args[0], env)
+			if !ok || b || unsignedBits(tv.Type) == 0 {
+				return 0, false, false
+			}
+			return u.truncTo(v, tv.Type), false, true
+		}
+		return 0, false, false
+	case *ast.UnaryExpr:
+		v, b, ok := u.evalU8(x.X, env)
+		if !ok {
+			return 0, false, false
+		}
+		switch x.Op {
+		case token.XOR:
+			if b {
+				return 0, false, false
+			}
+			return u.truncTo(^v, u.p.info.TypeOf(e)), false, true
+		case token.NOT:
+			if !b {
+				return 0, false, false
+			}
+			return 1 - v, true, true
+		}
+		return 0, false, false
+	case *ast.BinaryExpr:
+		a, ab, ok1 := u.evalU8(x.X, env)
+		c, cb, ok2 := u.evalU8(x.Y, env)
+		if !ok1 || !ok2 || ab != cb {
+			return 0, false, false
+		}
+		bv := func(t bool) (uint64, bool, bool) {
+			if t {
+				return 1, true, true
+			}
+			return 0, true, true
+		}
+		if ab {
+			switch x.Op {
+			case token.LAND:
+				return bv(a == 1 && c == 1)
+			case token.LOR:
+				return bv(a == 1 || c == 1)
+			case token.EQL:
+				return bv(a == c)
+			case token.NEQ:
+				return bv(a != c)
+			}
+			return 0, false, false
+		}
+		t := u.p.info.TypeOf(e)
+		switch x.Op {
+		case token.AND:
+			return u.truncTo(a&c, t), false, true
+		case token.OR:
+			return u.truncTo(a|c, t), false, true
+		case token.XOR:
+			return u.truncTo(a^c, t), false, true
+		case token.AND_NOT:
+			return u.truncTo(a&^c, t), false, true
+		case token.ADD:
+			return u.truncTo(a+c, t), false, true
+		case token.SUB:
+			return u.truncTo(a-c, t), false, true
+		case token.EQL:
+			return bv(a == c)
+		case token.NEQ:
+			return bv(a != c)
+		case token.LSS:
+			return bv(a < c)
+		case token.LEQ:
+			return bv(a <= c)
+		case token.GTR:
+			return bv(a > c)
+		case token.GEQ:
+			return bv(a >= c)
+		}
+	}
+	return 0, false, false
+}
+
+func (u *emUnit) truncTo(v uint64, t types.Type) uint64 {
+	if w := unsignedBits(t); w > 0 && w < 64 {
+		return v & (1<<uint(w) - 1)
+	}
+	return v
+}
+
+// trackerEnv: receiver/parameter objects of a tracker method with an 8-bit receiver (value or pointer)
+func (u *emUnit) trackerEnv(fo *types.Func) (*u8env, *ast.FuncDecl) {
+	d := u.decls[fo]
+	if d == nil || d.Body == nil || d.Recv == nil || len(d.Recv.List) != 1 || len(d.Recv.List[0].Names) != 1 {
+		return nil, nil
+	}
+	ro := u.p.info.Defs[d.Recv.List[0].Names[0]]
+	if ro == nil {
+		return nil, nil
+	}
+	rt := ro.Type()
+	if p, isPtr := rt.(*types.Pointer); isPtr {
+		rt = p.Elem()
+	}
+	if unsignedBits(rt) != 8 {
+		return nil, nil
+	}
+	env := &u8env{recv: ro}
+	sig := fo.Type().(*types.Signature)
+	if sig.Params().Len() == 1 && unsignedBits(sig.Params().At(0).Type()) == 8 {
+		env.par = sig.Params().At(0)
+	} else if sig.Params().Len() != 0 {
+		return nil, nil
+	}
+	return env, d
+}
+
+// trackerMaskSem: the method returns a bool that equals (t & m == 0) for exactly one 8-bit mask m, for all 256 t
+func (u *emUnit) trackerMaskSem(fo *types.Func) (int64, bool) {
+	env, d := u.trackerEnv(fo)
+	if env == nil || len(d.Body.List) != 1 {
+		return 0, false
+	}
+	rs, isRet := d.Body.List[0].(*ast.ReturnStmt)
+	if !isRet || len(rs.Results) != 1 {
+		return 0, false
+	}
+	var tab [256]bool
+	for t := 0; t < 256; t++ {
+		env.recvV = uint64(t)
+		v, b, ok := u.evalU8(rs.Results[0], env)
+		if !ok || !b {
+			return 0, false
+		}
+		tab[t] = v == 1
+	}
+	for m := 1; m < 256; m++ {
+		same := true
+		for t := 0; t < 256 && same; t++ {
+			same = tab[t] == (t&m == 0)
+		}
+		if same {
+			return int64(m), true
+		}
+	}
+	u.fail(fo.Pos(), "%s: evaluated over all 256 tracker values it is not `flags & MASK == 0` for any mask", fo.Name())
+	return 0, false
+}
+
+// trackerUpdateSem: the method stores, for all 256 x 256 (t, c), t &^ c (rep) or t | c into *t
+func (u *emUnit) trackerUpdateSem(fo *types.Func, rep bool) bool {
+	env, d := u.trackerEnv(fo)
+	if env == nil || env.par == nil || len(d.Body.List) != 1 {
+		return false
+	}
+	if _, isPtr := env.recv.Type().(*types.Pointer); !isPtr {
+		return false
+	}
+	as, isAs := d.Body.List[0].(*ast.AssignStmt)
+	if !isAs || len(as.Lhs) != 1 || len(as.Rhs) != 1 {
+		return false
+	}
+	st, isStar := ast.Unparen(as.Lhs[0]).(*ast.StarExpr)
+	if !isStar {
+		return false
+	}
+	if id, isId := ast.Unparen(st.X).(*ast.Ident); !isId || u.p.info.Uses[id] != env.recv {
+		return false
+	}
+	for t := 0; t < 256; t++ {
+		for c := 0; c < 256; c++ {
+			env.recvV, env.parV = uint64(t), uint64(c)
+			r, b, ok := u.evalU8(as.Rhs[0], env)
+			if !ok || b {
+				return false
+			}
+			var got uint64
+			switch as.Tok {
+			case token.ASSIGN:
+				got = r
+			case token.AND_ASSIGN:
+				got = uint64(t) & r
+			case token.OR_ASSIGN:
+				got = uint64(t) | r
+			case token.XOR_ASSIGN:
+				got = uint64(t) ^ r
+			case token.AND_NOT_ASSIGN:
+				got = uint64(t) &^ r
+			default:
+				return false
+			}
+			got &= 0xff
+			want := uint64(t | c)
+			if rep {
+				want = uint64(t &^ c)
+			}
+			if got != want {
+				u.fail(fo.Pos(), "%s: evaluated at tracker=$%02x operand=$%02x it stores $%02x, expected $%02x", fo.Name(), t, c, got, want)
+			}
+		}
+	}
+	return true
+}
+
 // trackerMask: body must be `return CONV(recv) & MASK == 0`.
 func (u *emUnit) trackerMask(fo *types.Func) int64 {
+	if m, ok := u.trackerMaskSem(fo); ok {
+		return m
+	}
 	d := u.decls[fo]
 	if d == nil || d.Body == nil || len(d.Body.List) != 1 {
 		u.fail(fo.Pos(), "%s: body not understood", fo.Name())
@@ -602,6 +850,9 @@ func (u *emUnit) trackerMask(fo *types.Func) int64 {
 
 // trackerUpdate checks AssumeREP (`*t &= ^T(c)` or `*t &^= T(c)`) / AssumeSEP (`*t |= T(c)`).
 func (u *emUnit) trackerUpdate(fo *types.Func, rep bool) {
+	if u.trackerUpdateSem(fo, rep) {
+		return
+	}
 	d := u.decls[fo]
 	if d == nil || d.Body == nil || len(d.Body.List) != 1 {
 		u.fail(fo.Pos(), "%s: body not understood", fo.Name())
